@@ -248,11 +248,15 @@ def run_check(pid, tier, seed, workers, only, write_evidence, cap=None):
         if key in seen:
             continue
         seen.add(key)
-        if extra_natives:
-            others = {s: nat.run([rq])[0] for s, nat in extra_natives.items()}
-            ca, cb = mod.confirm_multi(v, a, others), None
-        else:
-            ca, cb = mod.confirm(v, a), mod.confirm(v, b)
+        try:
+            if extra_natives:
+                others = {s: nat.run([rq])[0] for s, nat in extra_natives.items()}
+                ca, cb = mod.confirm_multi(v, a, others), None
+            else:
+                ca, cb = mod.confirm(v, a), mod.confirm(v, b)
+        except Exception as e:      # a broken confirmation step is inconclusive, never a verdict
+            inconclusive.append('confirmation of a counterexample failed: %r on request %s' % (e, json.dumps(rq)[:200]))
+            continue
         if ca or cb:
             confirmed.append({'query': qn, 'label': v['label'], 'request': rq, 'what': ca or cb,
                               'dev': bool(ca), 'release': bool(cb), 'role': mod.finding_role(v, a)})
